@@ -12,8 +12,10 @@ package main
 //   P<pin token>   LogPin            U<cid>   LogUnpin
 //   h              close the datastore gate (writers are held)
 //   w              wait until a writer (the batch worker inside Commit) is held
-//   g<c>           open the gate; c = o | b | t | e | x : fail the next write of that class once
-//   !<c>           arm such a failure without touching the gate
+//   g<c..>         open the gate; c = o | b | t | e | x : fail the next write of that class once; several
+//                  letters: one failure per publish attempt, in that order (gbe: the first attempt fails at
+//                  the DAG node, the next one at the element batch, the third succeeds)
+//   !<c..>         arm such failures without touching the gate
 //   f              observation at a moment where every accepted operation must have been
 //                  committed: N: now; Z: after padding the batch with filler pins (cids 20..)
 //                  until it is full (at least one filler: the last operation of the last batch is
@@ -21,7 +23,10 @@ package main
 // executed trace (';' separated, one per step):
 //   o | r | e      LogPin/LogUnpin returned nil | ErrMaxQueueSizeReached | another error
 //   h, g, !        done ; w1 / w0   held / not held within the timeout
-//   f/<fillers>/<pinset>/<tracker calls since the previous observation>
+//   f/<fillers>/<pinset>/<tracker calls since the previous observation>[/<commit attempts>]
+//        commit attempts (S mode): <taken><o|b|t|e|x>,... : how many operations the worker had taken when
+//        each publish attempt since the previous observation started (accepted minus queued, read under
+//        the submission lock when the attempt's DAG node write reaches the datastore), and how it ended
 //        fillers: <cid>.<val>o,... (submitted again after a short pause while the queue is full;
 //        only the accepted submission is listed) ; pinset: <cid>.<val>,... ; calls: T<cid>.<val> | N<cid>
 
@@ -31,6 +36,7 @@ import (
 	"fmt"
 	"strconv"
 	"strings"
+	"sync"
 	"time"
 
 	"github.com/ipfs/ipfs-cluster/api"
@@ -64,6 +70,16 @@ func parseBatchCfg(s string) (batchCfg, bool) {
 		return batchCfg{}, false
 	}
 	return batchCfg{mode: s[0], maxSize: a, queue: b}, true
+}
+
+func classesOf(s string) []wclass {
+	var l []wclass
+	for i := 0; i < len(s); i++ {
+		if c := classOf(s[i]); c != clNone {
+			l = append(l, c)
+		}
+	}
+	return l
 }
 
 func classOf(c byte) wclass {
@@ -129,9 +145,9 @@ func validBatchStep(st string) bool {
 	case st == "h" || st == "w" || st == "f":
 		return true
 	case strings.HasPrefix(st, "g"):
-		return len(st) == 2 && strings.Contains("obtex", st[1:])
+		return st == "go" || (len(st) >= 2 && len(st) <= 5 && strings.Trim(st[1:], "btex") == "")
 	case strings.HasPrefix(st, "!"):
-		return len(st) == 2 && strings.Contains("btex", st[1:])
+		return len(st) >= 2 && len(st) <= 5 && strings.Trim(st[1:], "btex") == ""
 	case strings.HasPrefix(st, "U"):
 		c, err := strconv.Atoi(st[1:])
 		return err == nil && c >= 0 && c < fillerBase && strconv.Itoa(c) == st[1:]
@@ -188,6 +204,14 @@ func runBatch(emit func(string), cfgTok, script string) {
 	ctx := context.Background()
 
 	var acc []accOp
+	var subMu sync.Mutex // held around LogPin/LogUnpin + bookkeeping, and by the commit-attempt callback
+	if bc.mode == 'S' {
+		p.store.onAttempt = func() int {
+			subMu.Lock()
+			defer subMu.Unlock()
+			return len(acc) - p.cc.VerifQueueLen()
+		}
+	}
 	sinceFlush := 0
 	nextFill := 0
 	var tr, vals []string
@@ -202,10 +226,19 @@ func runBatch(emit func(string), cfgTok, script string) {
 				}
 				done <- err
 			}()
+			subMu.Lock()
+			defer subMu.Unlock()
 			if isPin {
 				err = p.cc.LogPin(ctx, pin)
 			} else {
 				err = p.cc.LogUnpin(ctx, pin)
+			}
+			if err == nil {
+				o := accOp{pin: isPin, cid: common.CidIndex(pin.Cid, common.PinUniverse)}
+				if isPin {
+					o.val = vt.val(pin)
+				}
+				acc = append(acc, o)
 			}
 		}()
 		var err error
@@ -216,11 +249,6 @@ func runBatch(emit func(string), cfgTok, script string) {
 		}
 		switch {
 		case err == nil:
-			o := accOp{pin: isPin, cid: common.CidIndex(pin.Cid, common.PinUniverse)}
-			if isPin {
-				o.val = vt.val(pin)
-			}
-			acc = append(acc, o)
 			sinceFlush++
 			return "o"
 		case errors.Is(err, ccrdt.ErrMaxQueueSizeReached):
@@ -258,16 +286,10 @@ func runBatch(emit func(string), cfgTok, script string) {
 				tr = append(tr, "w0")
 			}
 		case 'g':
-			cl := clNone
-			if len(st) > 1 {
-				cl = classOf(st[1])
-			}
-			p.store.openGate(cl)
+			p.store.openGate(classesOf(st[1:])...)
 			tr = append(tr, "g")
 		case '!':
-			if len(st) > 1 {
-				p.store.arm(classOf(st[1]))
-			}
+			p.store.arm(classesOf(st[1:])...)
 			tr = append(tr, "!")
 		case 'f':
 			var fl []string
@@ -290,7 +312,10 @@ func runBatch(emit func(string), cfgTok, script string) {
 				state = p.state(vt)
 			case 'S':
 				addFiller()
-				state, _ = waitState(p, vt, oracle(acc), 6*time.Second)
+				subMu.Lock()
+				want := oracle(acc)
+				subMu.Unlock()
+				state, _ = waitState(p, vt, want, 6*time.Second)
 			case 'Z':
 				// fill the current batch; the last filler is the last operation of the last batch
 				for pad := bc.maxSize - sinceFlush%bc.maxSize; pad > 0; pad-- {
@@ -319,7 +344,19 @@ func runBatch(emit func(string), cfgTok, script string) {
 			if len(fl) > 0 {
 				j = strings.Join(fl, ",")
 			}
-			tr = append(tr, fmt.Sprintf("f/%s/%s/%s", j, state, p.trk.take()))
+			if bc.mode == 'S' {
+				var al []string
+				for _, a := range p.store.takeAttempts() {
+					al = append(al, fmt.Sprintf("%d%c", a.taken, a.out))
+				}
+				aj := "-"
+				if len(al) > 0 {
+					aj = strings.Join(al, ",")
+				}
+				tr = append(tr, fmt.Sprintf("f/%s/%s/%s/%s", j, state, p.trk.take(), aj))
+			} else {
+				tr = append(tr, fmt.Sprintf("f/%s/%s/%s", j, state, p.trk.take()))
+			}
 		default:
 			tr = append(tr, "bad")
 		}
@@ -377,6 +414,18 @@ func genBatchScript(r *common.Rng, thorough bool) (string, string) {
 		return l
 	}
 	classes := "btex"
+	// a failure script: mostly one failure, otherwise two or three, one per publish attempt
+	fails := func(from string) string {
+		n := 1
+		if r.Chance(2, 5) {
+			n = 2 + r.Intn(2)
+		}
+		b := make([]byte, n)
+		for i := range b {
+			b[i] = from[r.Intn(len(from))]
+		}
+		return string(b)
+	}
 	switch x := r.Intn(100); {
 	case x < 15: // batching disabled
 		var st []string
@@ -387,7 +436,7 @@ func genBatchScript(r *common.Rng, thorough bool) (string, string) {
 		}
 		for i := 0; i < n; i++ {
 			if i == failAt {
-				st = append(st, "!"+string(classes[r.Intn(4)]))
+				st = append(st, "!"+fails(classes))
 			}
 			st = append(st, op(), "f")
 		}
@@ -407,7 +456,7 @@ func genBatchScript(r *common.Rng, thorough bool) (string, string) {
 			}
 			if s == failSeg {
 				// armed while the worker is idle (start, or right after a flush)
-				st = append(st, "!"+string(classes[r.Intn(4)]))
+				st = append(st, "!"+fails(classes))
 			}
 			st = append(st, ops(n)...)
 			st = append(st, "f")
@@ -429,7 +478,7 @@ func genBatchScript(r *common.Rng, thorough bool) (string, string) {
 		st = append(st, ops(q+r.Range(0, 4))...) // exactly the queue's capacity up to 4 more
 		g := "go"
 		if r.Chance(1, 3) {
-			g = "g" + string(classes[r.Intn(4)])
+			g = "g" + fails(classes)
 		}
 		st = append(st, g, "f")
 		if r.Chance(1, 2) {
@@ -450,7 +499,7 @@ func genBatchScript(r *common.Rng, thorough bool) (string, string) {
 		}
 		for s := 0; s < segs; s++ {
 			if s == failSeg {
-				st = append(st, "!"+string("bte"[r.Intn(3)]))
+				st = append(st, "!"+fails("bte"))
 			}
 			st = append(st, ops(r.Range(1, 7))...)
 			st = append(st, "f")
